@@ -546,9 +546,16 @@ func (e *viewEnv) emit(o *lib.Out, view, coq string, st int, warn bool, extra []
 		fmt.Sprintf("null_elements=%v", nulls > 0)}, extra...)
 	in := e.g
 	in.Name = e.g.Name + "/" + view
-	o.Emit(lib.Case{Name: in.Name, Coq: coq, Input: in, Tags: tags, Nontrivial: true,
+	var input interface{} = in
+	if viewInputWrap != nil {
+		input = viewInputWrap(in)
+	}
+	o.Emit(lib.Case{Name: in.Name, Coq: coq, Input: input, Tags: tags, Nontrivial: true,
 		Obs: map[string]interface{}{"status": st, "warn": warn}})
 }
+
+// set while a cluster of the corpus is run from the hostile profile: how its input is recorded
+var viewInputWrap func(GCluster) interface{}
 
 func msgOf(body []byte) bool {
 	var m struct {
@@ -771,13 +778,13 @@ func genChan(r *lib.Rand, name string) GChan {
 		}
 	}
 	c.OmitClients = r.Chance(10)
-	c.E2e = genE2e(r, false, false) // (the first node's block is the receiver of the topic view's channel: kept free of null and repeated entries)
+	c.E2e = genE2e(r, false) // (the first node's block is the receiver of the topic view's channel: a quantile repeated in it would be served as it came)
 	c.ClaimMem = r.Chance(20)
 	return c
 }
 
 func genTopic(r *lib.Rand, name string) GTopic {
-	t := GTopic{Name: name, Paused: r.Chance(20), E2e: genE2e(r, true, true)}
+	t := GTopic{Name: name, Paused: r.Chance(20), E2e: genE2e(r, true)}
 	for i := range t.Num {
 		t.Num[i] = genCounter(r)
 	}
@@ -802,6 +809,7 @@ func genCluster(r *lib.Rand, k int) GCluster {
 	g := GCluster{Name: fmt.Sprintf("cluster-%d", k)}
 	// an idle cluster: every e2e window is empty (count 0 on all nodes); otherwise on some
 	genIdle = r.Chance(30)
+	genNullish = r.Chance(15) // every e2e block of the cluster carries null entries
 	genPctSet = genPercentileSet(r)
 	fails := []string{"500", "garbage", "wrongtype", "bignum"}
 	for i := range g.N {
@@ -957,6 +965,10 @@ func runView(o *lib.Out, r *lib.Rand, n int, replay string) {
 		}
 		return
 	}
+	// the recorded witnesses first
+	for _, w := range viewWitnesses() {
+		runCluster(o, cl, w.g, w.views)
+	}
 	// every subset of failing upstreams, on one generated cluster in each mode
 	runSweep(o, cl, r)
 	for k := 0; k < n; k++ {
@@ -971,7 +983,7 @@ func runView(o *lib.Out, r *lib.Rand, n int, replay string) {
 // and every subset of the 3 nsqlookupds failing for the list views.
 func runSweep(o *lib.Out, cl *cluster, r *lib.Rand) {
 	base := GCluster{Topic: "orders", Channel: "ch", Node: "N0"}
-	genIdle, genPctSet = false, []int{0, 1}
+	genIdle, genNullish, genPctSet = false, false, []int{0, 1}
 	for i := range base.N {
 		n := GNsqd{Hostname: fmt.Sprintf("host%d", i)}
 		t := genTopic(r, "orders")
